@@ -45,6 +45,30 @@ def matrix_cases(res, cases):
                                  'api': 'astmRainflowCountingMatrix', 'input': h, 'scale': 0})
 
 
+def quiet_matrix(res, rng, k):
+    """histories that stay inside one digitisation level: a valid history, one half cycle of range 0 at that level"""
+    core.import_impl()
+    from ffpack import lsm, lcc
+    for _ in range(k):
+        r = rng.choice([0.5, 1.0, 2.0])
+        base = rng.choice([0.0, 10.0, -3.0, 7.0]) * r        # a level of the digitisation grid
+        h = [base + rng.uniform(-0.2, 0.2) * r for _ in range(rng.choice([2, 3, 5, 8]))]
+        res.evaluations += 1
+        res.stat('matrix_quiet_history')
+        case = {'history': h, 'resolution': r}
+        try:
+            m, keys = lsm.astmRainflowCountingMatrix(list(h), r)
+            own = lcc.astmRainflowCounting([base] * len(h), aggregate=True)
+        except Exception as e:  # noqa
+            res.failures.append({'signature': f'C01:matrix:quiet:raises:{type(e).__name__}', 'clause': 'astmRainflowCountingMatrix raised on a valid history that stays inside one level: ' + repr(e)[:100],
+                                 'api': 'astmRainflowCountingMatrix', 'input': case})
+            continue
+        tot = sum(c for _, c in own)
+        if len(keys) != 1 or abs(float(keys[0].replace(',', '')) - base) > 1e-9 or len(m) != 1 or len(m[0]) != 1 or abs(m[0][0] - tot) > 1e-12:
+            res.failures.append({'signature': f'C01:matrix:quiet:value:{base}:{r}', 'clause': 'matrix of a one-level history is not the 1x1 matrix of its count',
+                                 'api': 'astmRainflowCountingMatrix', 'input': case, 'impl_output': [m, keys, own]})
+
+
 def explore(res, rng, n, exhaustive=None):
     cases = [cyc_case for cyc_case in corpus()]
     cases += [core.gen_history(rng) for _ in range(n)]
@@ -54,6 +78,15 @@ def explore(res, rng, n, exhaustive=None):
         cyc.hist_stats(res, h)
     cyc.correspondence(res, ['rainflow'], cases, pred)
     matrix_cases(res, cases[: max(200, n // 5)])
+    # decimal grids (ranges that are equal at 8 decimals but different binary64 numbers) and a changed number of digits: the table
+    # is the histogram of the counter's own cycle list (the clause that does not depend on how float ties are decided)
+    dec = []
+    for _ in range(max(40, n // 20)):
+        h, _s = core.gen_history(rng, maxlen=16)
+        if max(abs(v) for v in h) < 4096:
+            dec.append((h, rng.choice([-1, -1, -2, -3])))
+    cyc.config_stream(res, ['rainflow'], dec, digits_choices=(8, 8, 8, 2))
+    quiet_matrix(res, rng, max(20, n // 50))
     res.samples += [{'history': h, 'scale_2^-s': s} for h, s in cases[len(corpus()):len(corpus()) + 3]]
 
 
